@@ -720,7 +720,10 @@ def moved_fraction(src, dst):
     return moved / total
 
 
-def unify_chunks_expr(*args, warn=True):
+_FROM_CONFIG = object()  # "read the setting from dask.config" (None is a meaningful limit)
+
+
+def unify_chunks_expr(*args, warn=True, policy=_FROM_CONFIG, limit=_FROM_CONFIG):
     # TODO(expr): This should probably be a dedicated expression
     # This is the implementation that expects the inputs to be expressions, the public facing
     # variant needs to sanitize the inputs
@@ -756,7 +759,10 @@ def unify_chunks_expr(*args, warn=True):
     # movement is proportionate (cost-aware, see below); "coarse" always merges;
     # "refine" is stock-dask behavior (finest common refinement -- splits only,
     # never merges or realigns).
-    policy = config.get("array.unify-chunks-policy", "auto")
+    # ``policy``/``limit`` are passed by callers that must repeat an earlier
+    # decision exactly (Blockwise plans and lowers under one captured setting).
+    if policy is _FROM_CONFIG:
+        policy = config.get("array.unify-chunks-policy", "auto")
     consolidate = common_blockdim if policy == "refine" else coarse_blockdim
     chunkss = broadcast_dimensions(nameinds, blockdim_dict, consolidate=consolidate)
     fine = None  # finest common refinement, computed lazily and shared below
@@ -842,7 +848,8 @@ def unify_chunks_expr(*args, warn=True):
     # exceed array.unify-chunks-limit for any participating array, redo the coarsened
     # dims with common_blockdim instead -- refinement only splits chunks, so the
     # fallback moves no data.
-    limit = config.get("array.unify-chunks-limit", None)
+    if limit is _FROM_CONFIG:
+        limit = config.get("array.unify-chunks-limit", None)
     if limit and consolidate is coarse_blockdim:
         limit = parse_bytes(limit) if isinstance(limit, str) else limit
         worst = 0
